@@ -7,7 +7,11 @@ package corr
 // ops:
 //   bind ssrc=<u32> rate=<u32> latest=<0|1>   BindLocalStream (the interceptor is created by the first bind;
 //                                             `latest` is an interceptor option: a later bind with another
-//                                             value is `bad-op`)
+//                                             value is `bad-op`).  An optional `skew=<ns>` on the FIRST bind:
+//                                             the clock configured with SenderNow runs that much ahead of
+//                                             (negative: behind) the bubble's clock, whose time is what the
+//                                             ticker channel delivers; packet times and report times are the
+//                                             configured clock's.  The model's clock is moved by skew there.
 //   write ssrc=<u32> seq=<u16> ts=<u32> len=<n> dt=<ns>   advance the clock by dt, then write one packet
 //   tick dt=<ns>                              advance the clock by dt, then deliver one tick
 //   unbind ssrc=<u32>                         UnbindLocalStream
@@ -78,8 +82,12 @@ func c07Run(t *testing.T, ops []string, o *Out) {
 			case name == "bind" && need("ssrc", "rate", "latest") && (m["latest"] == "0" || m["latest"] == "1"):
 				if icpt == nil {
 					latest = m["latest"]
+					var skew time.Duration
+					if need("skew") {
+						skew = time.Duration(atoi(m["skew"]))
+					}
 					opts := []report.SenderOption{
-						report.SenderNow(time.Now),
+						report.SenderNow(func() time.Time { return time.Now().Add(skew) }),
 						report.SenderTicker(func(time.Duration) report.Ticker { return ticker }),
 					}
 					if latest == "1" {
@@ -212,7 +220,14 @@ func c07Gen(r *Rng, tier string, idx int) Case {
 			ops = append(ops, fmt.Sprintf("tick dt=%d", dts[r.Intn(len(dts))]))
 		}
 	}
-	for _, s := range streams {
+	for i, s := range streams {
+		if i == 0 && r.Chance(1, 4) {
+			// a configured clock that is not the ticker's: a millisecond to decades, both signs (inside NTP era 0)
+			ops = append(ops, fmt.Sprintf("bind ssrc=%d rate=%d latest=%d skew=%d", s.ssrc, s.rate, latest, r.Pick(1000000, -1000000,
+				999999999, -1000000000, 3600000000000, -86400000000000, 315576000000000000, -315576000000000000,
+				1104537600000000000, -2900000000000000000)))
+			continue
+		}
 		ops = append(ops, fmt.Sprintf("bind ssrc=%d rate=%d latest=%d", s.ssrc, s.rate, latest))
 		if cl == "tickfirst" && r.Bool() {
 			ops = append(ops, fmt.Sprintf("tick dt=%d", dts[r.Intn(len(dts))]))
